@@ -155,6 +155,19 @@ pub fn setup(r: &mut Rng, thorough: bool, scheme: SchemeType) -> Option<Setup> {
     make(scheme, n, &qs, t, true, None)
 }
 
+/// a parameter set whose coefficient primes sit at the BOTTOM of their bit ranges (bits(Q) < sum of the primes' bit counts, on every level
+/// with two or more primes): anything derived from "the bit count of Q" (noise budget, scale bounds) is separated from the sum of bit counts
+pub fn setup_low_primes(r: &mut Rng, thorough: bool, scheme: SchemeType) -> Option<Setup> {
+    let lg = r.range(2, if thorough { 6 } else { 5 }) as usize; let n = 1usize << lg;
+    let k = r.range(3, 4) as usize;
+    let bits: Vec<usize> = (0..k).map(|_| *r.pick(&[30usize, 40, 50, 60])).collect();
+    let qs = crate::c10::ntt_primes_low(n, &bits);
+    if qs.len() != bits.len() { return None; }
+    let t = match r.below(3) { 0 => pick_plain(r, n, 0, &qs), 1 => 1u64 << r.range(2, 10), _ => 3 + 2 * r.below(30) };
+    if qs.iter().any(|&q| gcd(q, t) != 1) { return None; }
+    make(scheme, n, &qs, t, true, None)
+}
+
 /// a parameter set of the wide-plain-modulus family (t > 2^32), found by re-drawing `setup` (deterministic in the seed)
 pub fn setup_wide_t(r: &mut Rng, thorough: bool, scheme: SchemeType) -> Option<Setup> {
     for _ in 0..80 { if let Some(s) = setup(r, thorough, scheme) { if s.t > (1u64 << 32) { return Some(s); } } }
